@@ -3,6 +3,7 @@ import DracoModel.DecM
 import DracoModel.BitBuf
 import DracoModel.BitCoders
 import DracoModel.Adapters
+import DracoModel.SymbolLegacy
 import Generated.Constants
 /-
   Connectivity part of the Edgebreaker mesh decoder, bitstream 2.2:
@@ -65,11 +66,16 @@ deriving Repr
 
 /-- the traversal decoder (standard or valence) after `Start` -/
 structure Trav where
-  valence : Bool
-  /-- `symbol_buffer_` in bit mode (standard traversal) -/
+  /-- 0 standard, 1 predictive (legacy), 2 valence -/
+  kind : Nat
+  /-- bitstream < 2.2 -/
+  legacy : Bool := false
+  /-- `symbol_buffer_` in bit mode (standard / predictive traversal, valence before 2.2) -/
   sym : BitReader
-  /-- `start_face_decoder_` -/
+  /-- `start_face_decoder_` (bitstream ≥ 2.2) -/
   startFace : RAnsBitDec
+  /-- `start_face_buffer_` in bit mode (bitstream < 2.2) -/
+  startFaceBits : BitReader := BitReader.start []
   /-- `attribute_connectivity_decoders_` -/
   seams : Array RAnsBitDec
   /-- `vertex_valences_` -/
@@ -78,6 +84,11 @@ structure Trav where
   ctxSyms : Array (Array Nat) := #[]
   /-- `context_counters_` -/
   ctxCnt : Array Int := #[]
+  /-- `prediction_decoder_` of the predictive traversal -/
+  predDec : RAnsBitDec := ⟨0, ⟨0, []⟩⟩
+
+def Trav.valence (t : Trav) : Bool := t.kind == 2
+def Trav.tracksValences (t : Trav) : Bool := t.kind != 0
 
 /-- static input of `DecodeConnectivity(int num_symbols)` -/
 structure ConnIn where
@@ -99,6 +110,8 @@ structure ConnOut where
   /-- return value: number of vertices after the compaction -/
   numConnVerts : Nat
   tags : Nat
+  /-- the start face configurations in decoding order -/
+  startFaces : List Bool := []
 
 def topoC : Nat := Generated.TOPOLOGY_C.toNat
 def topoS : Nat := Generated.TOPOLOGY_S.toNat
@@ -143,6 +156,8 @@ def connLoop (ci : ConnIn) (tr : Trav) : R ConnOut := do
   let mut ctxCnt := tr.ctxCnt
   let mut lastSymbol := inv
   let mut activeCtx := inv
+  let mut predDec := tr.predDec
+  let mut predicted := inv
   let mut tags := 0
   let minValence := 2
   let maxValence := 7
@@ -152,7 +167,21 @@ def connLoop (ci : ConnIn) (tr : Trav) : R ConnOut := do
     let mut checkSplit := false
     -- traversal_decoder_.DecodeSymbol()
     let mut symbol := 0
-    if tr.valence then
+    if tr.kind == 1 then
+      -- MeshEdgebreakerTraversalPredictiveDecoder::DecodeSymbol
+      let mut taken := false
+      if predicted != inv then
+        let (b, d) := predDec.nextBit
+        predDec := d
+        if b then
+          symbol := predicted
+          taken := true
+      if !taken then
+        let (s, r) := decodeSymbolStd sym
+        symbol := s
+        sym := r
+      lastSymbol := symbol
+    else if tr.valence then
       if activeCtx != inv then
         let cnt := (← rdI "context_counters_" ctxCnt activeCtx) - 1
         ctxCnt ← wrI "context_counters_" ctxCnt activeCtx cnt
@@ -161,6 +190,11 @@ def connLoop (ci : ConnIn) (tr : Trav) : R ConnOut := do
         if sid > 4 then throw .fail
         symbol := symbolToTopology sid
         tags := tags ||| tg_valence_ctx_used
+      else if tr.legacy then
+        -- no context yet: the symbol is read directly (bitstream < 2.2)
+        let (s, r) := decodeSymbolStd sym
+        symbol := s
+        sym := r
       else
         symbol := topoE
       lastSymbol := symbol
@@ -229,7 +263,7 @@ def connLoop (ci : ConnIn) (tr : Trav) : R ConnOut := do
       let mut cornerN := nextC cornerB
       let vertexN ← vertex c2v cornerN
       -- traversal_decoder_.MergeVertices(vertex_p, vertex_n)
-      if tr.valence then
+      if tr.tracksValences then
         let s := (← rd "vertex_valences_" valences vertexP) + (← rd "vertex_valences_" valences vertexN)
         if s ≥ 2 ^ 31 then throw (.ub "vertex_valences_ overflow")
         valences ← wr "vertex_valences_" valences vertexP s
@@ -264,7 +298,7 @@ def connLoop (ci : ConnIn) (tr : Trav) : R ConnOut := do
     else
       throw .fail
     -- traversal_decoder_.NewActiveCornerReached(active_corner_stack.back())
-    if tr.valence then
+    if tr.tracksValences then
       let c := stack.back!
       let n := nextC c
       let p := prevC c
@@ -290,8 +324,13 @@ def connLoop (ci : ConnIn) (tr : Trav) : R ConnOut := do
         valences ← add valences vP 2
       let av ← rd "vertex_valences_" valences vN
       if av ≥ 2 ^ 31 then throw (.ub "vertex_valences_ overflow")
-      let clamped := if av < minValence then minValence else if av > maxValence then maxValence else av
-      activeCtx := clamped - minValence
+      if tr.kind == 1 then
+        if lastSymbol == topoC || lastSymbol == topoR then
+          predicted := if av < 6 then topoR else topoC
+        else predicted := inv
+      else
+        let clamped := if av < minValence then minValence else if av > maxValence then maxValence else av
+        activeCtx := clamped - minValence
     if checkSplit then
       let encoderSymbolId := ci.numSymbols - symbolId - 1
       let mut count := 0
@@ -318,13 +357,23 @@ def connLoop (ci : ConnIn) (tr : Trav) : R ConnOut := do
   if vc.size > ci.maxNumVertices then throw .fail
   -- start faces
   let mut startFace := tr.startFace
+  let mut startFaceBits := tr.startFaceBits
+  let mut startBits : List Bool := []
   if stack.size > 1 then tags := tags ||| tg_components_1
   for _ in [0:stack.size] do
     if stack.isEmpty then break
     let corner := stack.back!
     stack := stack.pop
-    let (interior, sf) := startFace.nextBit
-    startFace := sf
+    let mut interior := false
+    if tr.legacy then
+      let (b, r) := startFaceBits.getBit
+      startFaceBits := r
+      interior := b != 0
+    else
+      let (b, sf) := startFace.nextBit
+      startFace := sf
+      interior := b
+    startBits := interior :: startBits
     if interior then
       tags := tags ||| tg_start_interior
       if numFaces ≥ ci.numFaces then throw .fail
@@ -401,7 +450,7 @@ def connLoop (ci : ConnIn) (tr : Trav) : R ConnOut := do
     hole ← wrB "is_vert_hole_" hole srcVert false
     numVertices := numVertices - 1
   if numVertices < 0 then throw (.ub "negative vertex count")
-  pure { c2v, opp, vc, hole, numConnVerts := numVertices.toNat, tags }
+  pure { c2v, opp, vc, hole, numConnVerts := numVertices.toNat, tags, startFaces := startBits.reverse }
 
 /-- `MeshAttributeCornerTable` built by `InitEmpty`, `AddSeamEdge`, `RecomputeVertices`, plus
     the decoder's `AttributeData` bookkeeping -/
@@ -419,7 +468,7 @@ deriving Inhabited
 
 /-- `DecodeAttributeConnectivitiesOnFace` for every face: the seam corners per attribute data.
     Returns the corner lists and the tag mask. -/
-def decodeSeams (opp : Array Nat) (numFaces numAtt : Nat) (decs : Array RAnsBitDec) :
+def decodeSeams (legacy21 : Bool) (opp : Array Nat) (numFaces numAtt : Nat) (decs : Array RAnsBitDec) :
     R (Array (Array Nat) × Nat) := do
   let mut seams : Array (Array Nat) := Array.replicate numAtt #[]
   let mut decs := decs
@@ -433,7 +482,8 @@ def decodeSeams (opp : Array Nat) (numFaces numAtt : Nat) (decs : Array RAnsBitD
           seams := seams.modify i (·.push c)
         tags := tags ||| tg_seam_boundary
         continue
-      if oc / 3 < f then continue
+      -- (`DecodeAttributeConnectivitiesOnFaceLegacy`, bitstream < 2.1, decodes every edge from both sides)
+      if !legacy21 && oc / 3 < f then continue
       for i in [0:numAtt] do
         match decs[i]? with
         | none => throw (.ub "attribute_connectivity_decoders_")
@@ -597,47 +647,113 @@ def liftR {α} (r : R α) : DecM α :=
 /-- largest face / vertex count the model allocates tables for -/
 def modelCap : Nat := 2 ^ 21
 
-open DecM in
-/-- `DecodeHoleAndTopologySplitEvents` (2.2): the events, last one first -/
-def decodeTopologySplits (numFaces : Nat) : DecM (List TopoSplit) := do
-  let n ← varint 32
-  if n == 0 then pure [] else
-  require (n ≤ numFaces)
-  -- ids: delta + varint coding; arithmetic in uint32
-  let rec ids (k : Nat) (last : Nat) (acc : List (Nat × Nat)) : DecM (List (Nat × Nat)) :=
-    match k with
-    | 0 => pure acc
-    | k+1 => do
-      let d ← varint 32
-      let source := (d + last) % 2 ^ 32
-      let d2 ← varint 32
-      require (d2 ≤ source)
-      ids k source ((source, source - d2) :: acc)
-  let evs ← ids n 0 []         -- last event first
-  -- source edges from a bit sequence without size prefix, one bit each
-  let (_, bits) ← lift (decBitRegion false false (List.replicate n 1))
-  -- `bits` is in event order, `evs` reversed
-  pure ((evs.zip bits.reverse).map fun ((s, t), b) => ⟨s, t, b % 2⟩)
+/-- version dependent count: raw `uint32_t` before 2.0, varint afterwards -/
+def countV (ver : Nat) : DecM Nat := if ver < 2 * 256 + 0 then DecM.rdU32 else DecM.varint 32
+
+/-- run `m` `n` times, stopping at the first failure (no list of length `n` is built) -/
+def repeatM (m : DecM Unit) : Nat → DecM Unit
+  | 0 => DecM.ret ()
+  | n+1 => DecM.andThen m fun _ => repeatM m n
+
+/-- run `m` on another buffer (`DecoderBuffer event_buffer`); returns the result and the number of
+    bytes `m` consumed there (`decoded_size()`); the main buffer is untouched -/
+def withBuffer {α} (bs : Bytes) (m : DecM α) : DecM (α × Nat) := fun s =>
+  match m { s with rest := bs } with
+  | (some a, s') => (some (a, bs.length - s'.rest.length), { s' with rest := s.rest })
+  | (none, s') => (none, { s' with rest := s.rest })
 
 open DecM in
-/-- `MeshEdgebreakerTraversalDecoder::Start` / `MeshEdgebreakerTraversalValenceDecoder::Start` -/
-def startTraversal (valence : Bool) (numAtt numVerts numFaces : Nat) : DecM Trav := do
+/-- `DecodeHoleAndTopologySplitEvents`: the topology split events, last one first (the hole events
+    of bitstreams < 2.1 are read and ignored, as in the C++) -/
+def decodeTopologySplits (ver numFaces : Nat) : DecM (List TopoSplit) := do
+  let n ← countV ver
+  let mut result : List TopoSplit := []
+  if n > 0 then
+    require (n ≤ numFaces)
+    if ver < 1 * 256 + 2 then
+      -- raw events
+      let rec raw (k : Nat) (acc : List TopoSplit) : DecM (List TopoSplit) :=
+        match k with
+        | 0 => pure acc
+        | k+1 => do
+          let split ← rdU32
+          let source ← rdU32
+          let e ← rdU8
+          raw k (⟨source, split, e % 2⟩ :: acc)
+      result ← raw n []
+    else
+      -- ids: delta + varint coding; arithmetic in uint32
+      let rec ids (k : Nat) (last : Nat) (acc : List (Nat × Nat)) : DecM (List (Nat × Nat)) :=
+        match k with
+        | 0 => pure acc
+        | k+1 => do
+          let d ← varint 32
+          let source := (d + last) % 2 ^ 32
+          let d2 ← varint 32
+          require (d2 ≤ source)
+          ids k source ((source, source - d2) :: acc)
+      let evs ← ids n 0 []         -- last event first
+      -- source edges from a bit sequence without size prefix: one bit each, two before 2.2
+      let (_, bits) ← lift (decBitRegion false false (List.replicate n (if ver < 2 * 256 + 2 then 2 else 1)))
+      -- `bits` is in event order, `evs` reversed
+      result := (evs.zip bits.reverse).map fun ((s, t), b) => ⟨s, t, b % 2⟩
+  -- hole events
+  if ver < 2 * 256 + 1 then
+    let nh ← countV ver
+    if ver < 1 * 256 + 2 then repeatM (do let _ ← rdU32) nh
+    else repeatM (do let _ ← varint 32) nh
+  pure result
+
+open DecM in
+/-- `Start` of `MeshEdgebreakerTraversalDecoder` (kind 0), `…PredictiveDecoder` (1),
+    `…ValenceDecoder` (2) -/
+def startTraversal (ver kind numAtt numVerts numFaces : Nat) : DecM Trav := do
+  let legacy := ver < 2 * 256 + 2
   let mut sym := BitReader.start []
-  if !valence then
+  -- `at:<kind>:<bytes remaining>` tags: offsets for the stream transcoder of tools/props/legacycases.py
+  tag s!"at:traversal:{← remaining}"
+  if kind != 2 || legacy then
     -- DecodeTraversalSymbols: the bit decoder covers the whole remaining buffer
-    let size ← varint 64
+    let size ← lift (readBitRegionSize legacy)
     let rest ← peekRest
     sym := BitReader.start rest
     require (size ≤ rest.length)
     lift (skipBytes size)
   -- DecodeStartFaces
-  let startFace ← lift (ransBitStart false)
-  -- DecodeAttributeSeams
-  let seams ← replicateM' numAtt (lift (ransBitStart false))
-  if !valence then
-    pure { valence, sym, startFace, seams := seams.toArray }
+  let mut startFace : RAnsBitDec := ⟨0, ⟨0, []⟩⟩
+  let mut startFaceBits := BitReader.start []
+  if legacy then
+    let size ← lift (readBitRegionSize true)
+    let rest ← peekRest
+    startFaceBits := BitReader.start rest
+    require (size ≤ rest.length)
+    lift (skipBytes size)
   else
+    let r0 ← remaining
+    startFace ← lift (ransBitStart false)
+    tag s!"at:startface:{r0}:{← remaining}"
+  -- DecodeAttributeSeams
+  let seams ← replicateM' numAtt (do
+    tag s!"at:rans:{← remaining}"
+    lift (ransBitStart legacy))
+  if kind == 0 then
+    pure { kind, legacy, sym, startFace, startFaceBits, seams := seams.toArray }
+  else if kind == 1 then
+    let nss ← rdI32
+    require (decide (nss ≥ 0))
+    require (decide (nss < numVerts))
+    alloc "predictive_decoder.vertex_valences" (4 * numVerts)
+    let predDec ← lift (ransBitStart legacy)
+    pure { kind, legacy, sym, startFace, startFaceBits, seams := seams.toArray,
+           valences := Array.replicate numVerts 0, predDec }
+  else
+    if legacy then
+      let nss ← countV ver
+      require (nss < numVerts)
+      let mode ← rdI8
+      require (mode == 0)          -- EDGEBREAKER_VALENCE_MODE_2_7
     alloc "valence_decoder.vertex_valences" (4 * numVerts)
+    tag s!"at:valence_contexts:{← remaining}"
     let mut ctxSyms : Array (Array Nat) := #[]
     let mut ctxCnt : Array Int := #[]
     -- min_valence_ = 2, max_valence_ = 7
@@ -649,7 +765,7 @@ def startTraversal (valence : Bool) (numAtt numVerts numFaces : Nat) : DecM Trav
         -- the result of DecodeSymbols is not checked by the C++: after a failure the contents
         -- of the context and the buffer position are whatever the failing call left behind
         let st ← (fun s => (some s, s) : DecM DSt)
-        match Leaf.decodeSymbols n 1 st.rest with
+        match decodeSymbolsV (ver < 2 * 256 + 0) n 1 st.rest with
         | none => failWith (.unsupported "valence traversal: DecodeSymbols failed (result ignored by the decoder)")
         | some (syms, rest) =>
           (fun s => (some (), { s with rest := rest }) : DecM Unit)
@@ -658,23 +774,25 @@ def startTraversal (valence : Bool) (numAtt numVerts numFaces : Nat) : DecM Trav
       else
         ctxSyms := ctxSyms.push #[]
         ctxCnt := ctxCnt.push 0
-    pure { valence, sym, startFace, seams := seams.toArray,
+    pure { kind, legacy, sym, startFace, startFaceBits, seams := seams.toArray,
            valences := Array.replicate numVerts 0, ctxSyms, ctxCnt }
 
 open DecM in
 /-- `MeshEdgebreakerDecoder::InitializeDecoder` + `MeshEdgebreakerDecoderImpl::DecodeConnectivity()` -/
 def decodeConnectivity : DecM Mesh := do
   let ver ← version
+  let legacy := ver < 2 * 256 + 2
   -- InitializeDecoder
   let travType ← rdU8
-  let valence := travType == Generated.MESH_EDGEBREAKER_VALENCE_ENCODING.toNat
-  if travType == Generated.MESH_EDGEBREAKER_PREDICTIVE_ENCODING.toNat then
-    failWith (.unsupported "edgebreaker predictive traversal") else
-  require (travType == Generated.MESH_EDGEBREAKER_STANDARD_ENCODING.toNat || valence)
-  if ver < 2 * 256 + 2 then failWith (.unsupported "edgebreaker bitstream < 2.2") else
+  tag s!"at:after_traversal_type:{← remaining}"
+  require (travType ≤ 2)
+  if legacy then tag s!"legacy:connectivity:{ver / 256}.{ver % 256}"
+  if travType == 1 then tag "traversal:predictive"
   -- DecodeConnectivity
-  let nev ← varint 32
-  let numFaces ← varint 32
+  if legacy then
+    let _numNewVerts ← countV ver
+  let nev ← countV ver
+  let numFaces ← countV ver
   require (numFaces ≤ 0xffffffff / 3)
   require (nev ≤ numFaces * 3)
   let minFaceEdges := 3 * numFaces / 2
@@ -683,10 +801,10 @@ def decodeConnectivity : DecM Mesh := do
   let maxVertexEdges := (nev64 * ((nev64 + 2 ^ 64 - 1) % 2 ^ 64)) % 2 ^ 64 / 2
   require (decide (maxVertexEdges ≥ minFaceEdges))
   let numAtt ← rdU8
-  let numSymbols ← varint 32
+  let numSymbols ← countV ver
   require (numFaces ≥ numSymbols)
   require (numFaces ≤ numSymbols + numSymbols / 3)
-  let numSplitSymbols ← varint 32
+  let numSplitSymbols ← countV ver
   require (numSplitSymbols ≤ numSymbols)
   alloc "edgebreaker.attribute_data" (200 * numAtt)
   -- corner_table_->Reset(num_faces, num_encoded_vertices_ + num_encoded_split_symbols)
@@ -699,12 +817,29 @@ def decodeConnectivity : DecM Mesh := do
   declare (numFaces + numVerts)
   if numFaces > modelCap || numVerts > 3 * modelCap then
     failWith (.unsupported "edgebreaker: declared size beyond the model's table limit") else
-  let splits ← decodeTopologySplits numFaces
-  let tr ← startTraversal valence numAtt numVerts numFaces
+  -- topology split (and hole) events: behind the connectivity data before 2.2
+  let mut splits : List TopoSplit := []
+  let mut eventBytes := 0
+  if legacy then
+    let connSize ← countV ver
+    let rest ← peekRest
+    require (connSize != 0 && connSize ≤ rest.length)
+    let (sp, used) ← withBuffer (rest.drop connSize) (decodeTopologySplits ver numFaces)
+    splits := sp
+    eventBytes := used
+  else
+    let r0 ← remaining
+    splits ← decodeTopologySplits ver numFaces
+    tag s!"at:events:{r0}:{← remaining}"
+  let tr ← startTraversal ver travType numAtt numVerts numFaces
+  tag s!"at:traversal_end:{← remaining}"
   let co ← liftR (connLoop { numFaces, maxNumVertices := numVerts, numSymbols, splits,
                              removeInvalid := numAtt == 0 } tr)
+  tag ("at:startface_bits:" ++ String.join (co.startFaces.map fun b => if b then "1" else "0") ++ ":")
+  -- the main buffer continues behind the traversal data; the split data decoded earlier is skipped
+  if legacy then lift (skipBytes eventBytes)
   -- attribute seams
-  let (seamCorners, t1) ← liftR (decodeSeams co.opp numFaces numAtt tr.seams)
+  let (seamCorners, t1) ← liftR (decodeSeams (ver < 2 * 256 + 1) co.opp numFaces numAtt tr.seams)
   let atts ← liftR ((seamCorners.mapM fun sc => buildAttConn co.c2v co.opp co.vc sc))
   alloc "mesh.faces" (12 * numFaces)
   let (faces, numPoints, t2) ← liftR (assignPoints co numFaces atts)
